@@ -8,6 +8,7 @@ mod domains;
 mod explore;
 mod props;
 mod report;
+mod rfc3339;
 
 fn main() {
     adapter::install_panic_hook();
@@ -46,6 +47,8 @@ fn dispatch_run(prop: &'static str, tier: &str) -> i32 {
         "C03" => props::tamper::run(tier),
         "C08" => props::spec::run(tier),
         "C09" => props::nopanic::run(tier),
+        "C10" => props::nonce::run(tier),
+        "C11" | "C12" => props::timeclaims::run(prop, tier),
         "C04" => props::binding::run_c04(tier),
         "C05" => props::binding::run_c05(tier),
         "C06" => props::binding::run_c06(tier),
@@ -60,6 +63,8 @@ fn dispatch_replay(prop: &'static str, case: &serde_json::Value) -> i32 {
         "C03" => props::tamper::replay(case),
         "C08" => props::spec::replay(case),
         "C09" => props::nopanic::replay(case),
+        "C10" => props::nonce::replay(case),
+        "C11" | "C12" => props::timeclaims::replay(prop, case),
         "C04" | "C05" | "C06" | "C07" => props::binding::replay(prop, case),
         _ => report::machinery_error("unknown property"),
     }
